@@ -157,6 +157,16 @@ CopyRef(t, s, d) ==
     ELSE LET o == OpenForWrite(t, d) IN
          IF o.e # "ok" THEN R(o.e, t, NoVal)
          ELSE R("ok", Put(t, o.p, File(t[ws.p].c)), NoVal)
+\* copy under a file-size limit of L bytes (RLIMIT_FSIZE): the kernel cuts the first copy_file_range
+\* call short at L, so File::copy's loop really iterates; the second call is refused (EFBIG).
+\* What must be there afterwards: exactly the first L bytes of the source (nothing of it twice or
+\* at the wrong place), or the whole source if it fits.
+CopyLimRef(t, s, d, L) ==
+    LET ref == CopyRef(t, s, d)
+        ws == Resolve(t, s, TRUE) IN
+    IF ref.e # "ok" \/ t[ws.p].c.n <= L THEN ref
+    ELSE LET o == OpenForWrite(t, d) IN
+         R("EFBIG", Put(t, o.p, File(Small(SubSeq(t[ws.p].c.b, 1, L)))), NoVal)
 CopySameNode(t, s, d) ==
     LET ws == Resolve(t, s, TRUE)
         wd == Resolve(t, d, TRUE) IN ws.r = "node" /\ wd.r = "node" /\ ws.p = wd.p
@@ -263,6 +273,7 @@ Ref(t, o) ==
       [] o.op = "oopen"          -> OOpenRef(t, o.p, o.c, o.f)
       [] o.op = "read"           -> ReadRef(t, o.p)
       [] o.op = "copy"           -> CopyRef(t, o.p, o.q)
+      [] o.op = "copy_lim"       -> CopyLimRef(t, o.p, o.q, o.c.n)
       [] o.op = "create_dir"     -> Mkdir(t, o.p)
       [] o.op = "create_dir_all" -> CdaRef(t, o.p)
       [] o.op = "remove_dir_all" -> RemoveDirAllRef(t, o.p)
@@ -294,8 +305,8 @@ ValueOk(o, ref, v) ==
 \* paths of the operation that end in "link/" are not judged
 OpUnjudged(t, o) ==
     \/ Unjudged(t, o.p)
-    \/ o.op \in {"copy", "rename"} /\ Unjudged(t, o.q)
-    \/ o.op = "copy" /\ CopySameNode(t, o.p, o.q)
+    \/ o.op \in {"copy", "copy_lim", "rename"} /\ Unjudged(t, o.q)
+    \/ o.op \in {"copy", "copy_lim"} /\ CopySameNode(t, o.p, o.q)
 
 \* what a failed call may leave behind
 ErrTreeOk(t, o, t2) ==
@@ -307,7 +318,7 @@ ErrTreeOk(t, o, t2) ==
          /\ (DOMAIN t2) \subseteq (DOMAIN t) /\ \A p \in DOMAIN t2 : t2[p] = t[p]
          /\ (DOMAIN t) \ (DOMAIN t2) \subseteq (Subtree(t, w.p) \ {w.p})
          /\ WellFormed(t2)
-    \/ o.op = "copy" /\                                 \* the destination was opened, nothing arrived
+    \/ o.op \in {"copy", "copy_lim"} /\                  \* the destination was opened, nothing arrived
          LET od == OpenForWrite(t, o.q) IN
          od.e = "ok" /\ \E c \in {Empty, od.old} : t2 = Put(t, od.p, File(c))
 
@@ -322,6 +333,8 @@ Accept(t, o, res, t2) ==
               \/ res.class = "err" /\ ErrTreeOk(t, o, t2)
     ELSE IF o.op = "exists" /\ ref.e \notin {"ok"}
          THEN t2 = t /\ (res.class = "err" \/ res.v = FALSE)
+    ELSE IF o.op = "copy_lim" /\ ref.e = "EFBIG"
+         THEN res.class = "err" /\ t2 = ref.t                 \* the prefix that fits, exactly
     ELSE IF ref.e = "ok"
          THEN res.class = "ok" /\ t2 = ref.t /\ ValueOk(o, ref, res.v)
     ELSE res.class = "err" /\ ErrTreeOk(t, o, t2)
